@@ -435,20 +435,9 @@ func checkC05(c *Ctx, r *Report) {
 		r.Fail("C05-sid", "anchor readHandshake not found")
 	} else {
 		o := r.Add("C05-sid", fnName(fn), "remote SID without B2 refused", c.pos(fn.Pos()))
-		good := false
-		for _, ret := range returnsOf(fn) {
-			ld, ok := resOf(ret, 1).(*ssa.UnOp)
-			if !ok || !strings.HasSuffix(pathOf(ld), "fbb.ErrNoFB2") {
-				continue
-			}
-			for _, cd := range condsAt(ret.Block()) {
-				if call, ok := cd.V.(*ssa.Call); ok && callName(&call.Call) == "fbb.sid.Has" && !cd.Truth {
-					if s, ok := constString(call.Call.Args[1]); ok && s == "B2" {
-						good = true
-					}
-				}
-			}
-		}
+		// the return may be made by a helper below readHandshake whose error every caller on the way
+		// up returns whenever it is not nil (ip_h4r3.go)
+		good := c05SidRefused(c, fn)
 		if good {
 			o.OK("ErrNoFB2 is returned on the false edge of SID.Has(\"B2\")")
 		} else {
